@@ -28,11 +28,11 @@ def one(rec, hub, seed, tier, i):
     which = i % 4
     with dsm.quiet():
         if which == 0:
-            cfg = dsm.make_config(fd, rng, tier)
+            cfg = dsm.make_config(fd, rng, tier, wide_p=0.008)
             s = dsm.make_stock(fd, cfg, "InflowDrivenDSM", inflow=dsm.driver_values(rng, cfg["shape"], str(rng.choice(["positive", "positive", "scaled:positive", "collapse"]))))
             s.compute()
         elif which == 1:
-            cfg = dsm.make_config(fd, rng, tier)
+            cfg = dsm.make_config(fd, rng, tier, wide_p=0.008)
             s = dsm.make_stock(fd, cfg, "InflowDrivenDSM", inflow=dsm.driver_values(rng, cfg["shape"], str(rng.choice(["positive", "mixed"]))))
             s.compute()
         else:
